@@ -610,6 +610,45 @@ def _sized_dest(f):
     return None
 
 
+_MIN_PROG = {}
+
+
+def _min_args(prog, f, rhs):
+    """arguments of a minimum: `(a < b) ? a : b` written in place, or a call of a static helper whose body is that"""
+    prog = prog or _MIN_PROG.get('prog')
+    r = strip_parens(strip(rhs))
+
+    def cond_min(e, env=None):
+        e = strip_parens(strip(e))
+        if e.get('kind') != 'ConditionalOperator':
+            return None
+        c, a, b = children(e)
+        c = strip_parens(c)
+        if c.get('kind') != 'BinaryOperator' or c.get('opcode') not in ('<', '<=', '>', '>='):
+            return None
+        l, rr = children(c)
+        small_first = c['opcode'] in ('<', '<=')
+        if small_first and canon(l) == canon(a) and canon(rr) == canon(b):
+            return [a, b]
+        if not small_first and canon(l) == canon(b) and canon(rr) == canon(a):
+            return [a, b]
+        return None
+    m = cond_min(r)
+    if m:
+        return m
+    if r.get('kind') == 'CallExpr' and prog is not None:
+        nm = prog.callee_name(r)
+        g = prog.resolve_name(f.unit, nm) if nm else None
+        if g is not None and getattr(g, 'body', None) is not None and getattr(g, 'static', False):
+            stmts = [c for c in children(g.body)]
+            if len(stmts) == 1 and stmts[0].get('kind') == 'ReturnStmt' and children(stmts[0]):
+                m = cond_min(children(stmts[0])[0])
+                pn = [p.get('name') for p in g.params]
+                if m and all(access_path(z) in pn for z in m) and len(children(r)) - 1 == len(pn):
+                    return [children(r)[1 + pn.index(access_path(z))] for z in m]
+    return []
+
+
 class FactsA(Facts):
     """Facts plus facts derived from assignments: v = E - c (c > 0)  =>  v < E ;  v = E  =>  v <= E"""
 
@@ -636,6 +675,16 @@ class FactsA(Facts):
                     continue
                 killed.add(nm)
                 if kind in ('init', 'assign') and rhs is not None:
+                    for marg in _min_args(getattr(self, '_prog', None), f, rhs):
+                        # v = min(.., E - c, ..)  =>  v <= E - c
+                        mv, mc = _split_index(marg)
+                        if re.match(r'^[A-Za-z_]\w*$', mv) and mv != nm:
+                            if mc < 0:
+                                gen.add((nm, '<', mv, 'u'))
+                                gen.add((mv, '>', nm, 'u'))
+                            elif mc == 0:
+                                gen.add((nm, '<=', mv, 'u'))
+                                gen.add((mv, '>=', nm, 'u'))
                     v, c = _split_index(rhs)
                     if re.match(r'^[A-Za-z_]\w*$', v) and v != nm:
                         if c < 0:
@@ -670,6 +719,7 @@ def rule_q1(prog, rep, rid='Q1'):
                   'terminator is stored at an offset <= size - 1')
     unit = 'src/utilities/qstring.c'
     prog.unit(unit)
+    _MIN_PROG['prog'] = prog
     verified = set()
     funcs = [f for f in sorted(prog.funcs_in(unit), key=lambda x: x.line or 0) if _sized_dest(f)]
     rep.notes['sized_destination_functions'] = [f.name for f in funcs]
@@ -736,6 +786,20 @@ def rule_q1(prog, rep, rid='Q1'):
                     cc = canon(cond)
                     m = re.search(r'\((\w+) < \(%s - 1\)\)' % re.escape(size), cc)
                     if not m:
+                        # counted-down form: `room = size - 1; while (.. && room > 0) { room--; ... }`
+                        m2 = re.search(r'\((\w+) > 0\)', cc) or re.search(r'\(0 < (\w+)\)', cc) or re.search(r'\((\w+) != 0\)', cc) or re.search(r'\(0 != (\w+)\)', cc)
+                        if m2:
+                            rvar = m2.group(1)
+                            from .expr import var_init as _vi
+                            inits = [canon(_vi(x)) for x in walk(f.body) if x.get('kind') == 'VarDecl' and x.get('name') == rvar and _vi(x) is not None]
+                            inits += [canon(children(x)[1]) for x in walk(f.body) if x.get('kind') == 'BinaryOperator' and x.get('opcode') == '='
+                                      and access_path(children(x)[0]) == rvar]
+                            body = _loop_nodes(f.cfg, head)
+                            worst = _max_excess(f.cfg, head, body, c, rvar, down=True)
+                            if inits == ['(%s - 1)' % size] and worst is not None and worst <= 0:
+                                okc = True
+                            else:
+                                why = 'the cursor %s can advance faster than the counted-down budget %s (initialised %s)' % (c, rvar, inits)
                         continue
                     ivar = m.group(1)
                     body = _loop_nodes(f.cfg, head)
@@ -764,8 +828,8 @@ def rule_q1(prog, rep, rid='Q1'):
                 rep.rules[rid]['instances'] -= 1
 
 
-def _max_excess(cfg, head, body, cvar, ivar):
-    """max over cycle paths head->head of (#cvar++ - #ivar++); None if unbounded"""
+def _max_excess(cfg, head, body, cvar, ivar, down=False):
+    """max over cycle paths head->head of (#cvar++ - #ivar++) (ivar-- when down); None if unbounded"""
     best = {}
     work = [(s, 0) for (s, _l) in head.succs if s.id in body]
     worst = None
@@ -786,9 +850,13 @@ def _max_excess(cfg, head, body, cvar, ivar):
                     p = access_path(children(x)[0])
                     if p == cvar:
                         ex += 1
-                    elif p == ivar:
+                    elif p == ivar and not down:
                         ex -= 1
-                elif x.get('kind') == 'CompoundAssignOperator' and access_path(children(x)[0]) == cvar:
+                    elif p == ivar and down:
+                        return None
+                elif x.get('kind') == 'UnaryOperator' and x.get('opcode') == '--' and down and access_path(children(x)[0]) == ivar:
+                    ex -= 1
+                elif x.get('kind') == 'CompoundAssignOperator' and access_path(children(x)[0]) in (cvar, ivar):
                     return None
         if best.get(n.id, -99) >= ex:
             continue
